@@ -547,6 +547,17 @@ func (c *Ctx) wrapCutRule(r *Report, rule string, wt *ssa.Function, lVal ssa.Val
 				if c.calleeName(&v.Call) == "(*strings.Builder).WriteString" && joinTermRe.MatchString(c.term(v.Call.Args[1])) {
 					acc, builder = v.Call.Args[0], true
 				}
+				// the join written as two calls in a row: WriteString("\n"); WriteString(prefix)
+				if c.calleeName(&v.Call) == "(*strings.Builder).WriteString" && prefixParamRe.MatchString(c.term(v.Call.Args[1])) {
+					for _, prev := range b.Instrs {
+						if prev == in {
+							break
+						}
+						if pc, ok := prev.(*ssa.Call); ok && c.calleeName(&pc.Call) == "(*strings.Builder).WriteString" && c.term(pc.Call.Args[1]) == `"\n"` && c.term(pc.Call.Args[0]) == c.term(v.Call.Args[0]) {
+							acc, builder = v.Call.Args[0], true
+						}
+					}
+				}
 			}
 			if acc == nil {
 				continue
@@ -587,4 +598,5 @@ func (c *Ctx) wrapCutRule(r *Report, rule string, wt *ssa.Function, lVal ssa.Val
 	}
 }
 
+var prefixParamRe = regexp.MustCompile(`^P\d+$`)
 var joinTermRe = regexp.MustCompile(`^\("\\n" \+ P\d+\)$`)
